@@ -324,6 +324,8 @@ mod verif_client {
     fn honest_then<const NL: usize, const RL: usize, const W: usize, const PL: usize>(version: Version, then_forged: bool) {
         use dalek::Signer;
         dalek::model_reset();
+        // the keys of this scenario are genuine public keys (derived from seeds): they parse
+        dalek::model_all_points_valid(true);
         ring::digest::model_reset(false);
         let nonce: [u8; NL] = vany_bytes::<NL>();
         let request: [u8; RL] = vany_bytes::<RL>();
